@@ -186,6 +186,10 @@ def pick_size(rng, buf, sh):
     r = rng.random()
     if r < 0.04:
         return 0
+    if buf.capacity > 100000:
+        # the capacity doubles on growth: keep long histories from reaching hundreds of MB
+        # (every event snapshots the whole storage)
+        r *= 0.40
     if r < 0.40:
         return rng.choice([1, 1, 2, 7, 8, 8, 9, 15, 16, 17])
     if r < 0.60 and sh.free:  # exact fit of some free interval (or a bit off)
